@@ -732,6 +732,40 @@ class Opaque:
         return f"<opaque {self._name}>"
 
 
+class _Escape(Exception):
+    """a return / break of the CONSUMER's body, on its way out through the frames of the generator that is feeding it"""
+
+    def __init__(self, inner):
+        self.inner = inner
+
+
+class VMGenerator:
+    """A call of an interpreted generator function.  Nothing runs until it is consumed; it is consumed by DRIVING it: the body is interpreted and
+    every ``yield`` hands its value to the consumer's callback (the body of the ``for`` / ``with`` that uses it), which runs to its end before the
+    generator continues - the same interleaving as real lazy iteration, without needing coroutines in the interpreter."""
+
+    def __init__(self, vm, func, env):
+        self.vm, self.func, self.env, self.started = vm, func, env, False
+
+    def drive(self, on_yield):
+        if self.started:
+            raise VMError("generator consumed twice")
+        self.started = True
+        vm = self.vm
+        vm._yield_stack.append(on_yield)
+        try:
+            vm.block(self.func.node.body, self.env, self.func.mod, self.func.owner)
+        except _Ret:
+            pass
+        finally:
+            vm._yield_stack.pop()
+
+    def collect(self):
+        out = []
+        self.drive(out.append)
+        return out
+
+
 class VMClass:
     def __init__(self, vmmod, node: ast.ClassDef):
         self.mod, self.node, self.name = vmmod, node, node.name
@@ -915,7 +949,10 @@ class VMModule:
 
 
 class MiniVM:
+    _yield_stack: List[Callable] = []
+
     def __init__(self, module, hooks=None, budget: int = 400000, siblings=None, overrides=None):
+        self._yield_stack = []
         """``hooks``: {method name: callable(vm, obj, *args)} consulted before the class's own method.
         ``siblings``: {import key as written in the source (".mod", "pkg.mod"): sa.source.Module} - other repository modules that
         are interpreted as well when imported from (everything else imported is Opaque).
@@ -1078,6 +1115,8 @@ class MiniVM:
                 or getattr(fn, "__name__", "") == "<lambda>"
             if not ok:
                 raise VMError(f"call of non-whitelisted callable {fn!r}")
+            if any(isinstance(a, VMGenerator) for a in args):
+                args = [a.collect() if isinstance(a, VMGenerator) else a for a in args]
             if any(isinstance(a, (VMObj, VMClass, Opaque)) for a in args) and not (isinstance(selfobj, (VMStub, list, dict)) or getattr(fn, "__name__", "") == "<lambda>"):
                 raise VMError(f"interpreted object passed to native callable {fn!r}")
             return fn(*args, **kwargs)
@@ -1122,11 +1161,36 @@ class MiniVM:
             raise VMRaise_native(TypeError(f"{node.name}() missing {missing}"))
         if isinstance(node, ast.Lambda):
             return self.eval(node.body, env, func.mod, func.owner)
+        if any(isinstance(x, (ast.Yield, ast.YieldFrom)) for x in walk_local(node)):
+            return VMGenerator(self, func, env)
         try:
             self.block(node.body, env, func.mod, func.owner)
         except _Ret as r:
             return r.v
         return None
+
+    def _consume(self, gen, body_fn):
+        """run ``body_fn(value)`` for every value ``gen`` yields; returns True when the consumer broke out.  A return / break inside the consumer
+        travels through the generator's frames (running its finally blocks) as an _Escape."""
+        def on_yield(v):
+            self._tick()
+            saved = self._yield_stack
+            self._yield_stack = saved[:-1]          # the consumer's own yields (if it is a generator itself) go to ITS consumer
+            try:
+                body_fn(v)
+            except _Cont:
+                pass
+            except (_Ret, _Brk) as e:
+                raise _Escape(e)
+            finally:
+                self._yield_stack = saved
+        try:
+            gen.drive(on_yield)
+        except _Escape as e:
+            if isinstance(e.inner, _Brk):
+                return True
+            raise e.inner
+        return False
 
     # ---- statements ---------------------------------------------------------------------------------------------------
     def block(self, stmts, env, mod, owner):
@@ -1205,6 +1269,13 @@ class MiniVM:
                 self.block(st.orelse, env, mod, owner)
         elif isinstance(st, ast.For):
             it = self.eval(st.iter, env, mod, owner)
+            if isinstance(it, VMGenerator):
+                def body_fn(v, st=st):
+                    self.assign(st.target, v, env, mod, owner)
+                    self.block(st.body, env, mod, owner)
+                if not self._consume(it, body_fn):
+                    self.block(st.orelse, env, mod, owner)
+                return
             if isinstance(it, (VMObj, Opaque)):
                 raise VMError("iteration over interpreted object")
             broke = False
@@ -1267,6 +1338,23 @@ class MiniVM:
             cms = []
             for it in st.items:
                 cm = self.eval(it.context_expr, env, mod, owner)
+                if isinstance(cm, VMGenerator) and len(st.items) == 1 and "contextmanager" in self._decorators(cm.func):
+                    # @contextmanager: the body of the with runs where the generator yields; an exception of the body passes through the generator's frames
+                    ran = []
+
+                    def body_fn(v, it=it):
+                        if ran:
+                            raise VMError("@contextmanager generator yields more than once")
+                        ran.append(True)
+                        if it.optional_vars is not None:
+                            self.assign(it.optional_vars, v, env, mod, owner)
+                        self.block(st.body, env, mod, owner)
+                    self._consume(cm, body_fn)
+                    if not ran:
+                        raise VMError("@contextmanager generator did not yield")
+                    return
+                if isinstance(cm, VMObj) and cm.cls.find("__enter__") is not None and cm.cls.find("__exit__") is not None:
+                    cm = _ObjContext(cm)
                 if not isinstance(cm, VMContext):
                     raise VMError("with-statement on something that is not a harness VMContext")
                 v = cm.enter(self)
@@ -1281,6 +1369,10 @@ class MiniVM:
                         break
                 else:
                     raise
+            except (_Ret, _Brk, _Cont, _Escape):
+                for cm in reversed(cms):          # return / break / continue inside the block: the managers are left normally
+                    cm.exit(self, None)
+                raise
             else:
                 for cm in reversed(cms):
                     cm.exit(self, None)
@@ -1524,6 +1616,21 @@ class MiniVM:
             return VMFunc(mod, e, owner)
         if isinstance(e, ast.Slice):
             return self._index(e, env, mod, owner)
+        if isinstance(e, (ast.Yield, ast.YieldFrom)):
+            if not self._yield_stack:
+                raise VMError("yield outside a driven generator")
+            if isinstance(e, ast.Yield):
+                self._yield_stack[-1](self.eval(e.value, env, mod, owner) if e.value is not None else None)
+                return None
+            src_ = self.eval(e.value, env, mod, owner)
+            if isinstance(src_, VMGenerator):
+                src_.drive(self._yield_stack[-1])
+            elif isinstance(src_, (VMObj, Opaque)):
+                raise VMError("yield from an interpreted object")
+            else:
+                for v in list(src_):
+                    self._yield_stack[-1](v)
+            return None
         raise VMError(f"expression {type(e).__name__} outside the subset")
 
 
@@ -1561,6 +1668,22 @@ class VMContext:
 
     def exit(self, vm, exc):
         return False
+
+
+class _ObjContext(VMContext):
+    """an interpreted object with __enter__ / __exit__ used in a with-statement"""
+
+    def __init__(self, obj):
+        self.obj = obj
+
+    def enter(self, vm):
+        return vm.call_method(self.obj, "__enter__")
+
+    def exit(self, vm, exc):
+        if exc is None:
+            return bool(vm.call_method(self.obj, "__exit__", None, None, None))
+        e = getattr(exc, "exc", None) or getattr(exc, "native", None)
+        return bool(vm.call_method(self.obj, "__exit__", getattr(e, "cls", type(e)), e, None))
 
 
 class VMStub:
@@ -1718,6 +1841,20 @@ class Inliner:
         if skip and any(isinstance(x, ast.Name) and x.id == h.args.args[0].arg and decos for x in walk_local(h)):
             return None                   # a classmethod that uses cls
         return h, skip
+
+    def _module_helper(self, call):
+        """a private module-level function the rules do not know by name, called with plain positional arguments (extended mode only)"""
+        if not self.extended or not (isinstance(call, ast.Call) and isinstance(call.func, ast.Name)) or call.keywords:
+            return None
+        name = call.func.id
+        if not name.startswith("_") or name in self.known:
+            return None
+        h = next((n for n in self.mod.tree.body if isinstance(n, ast.FunctionDef) and n.name == name), None)
+        if h is None or h.decorator_list or h.args.vararg or h.args.kwarg or h.args.kwonlyargs or len(h.args.args) != len(call.args):
+            return None
+        if any(isinstance(x, (ast.Yield, ast.YieldFrom, ast.Await)) for x in walk_local(h)):
+            return None
+        return h
 
     def helper_of(self, call):
         r = self._callee(call)
@@ -2148,6 +2285,14 @@ class Inliner:
                 self.generic_visit(node)
                 h = outer.helper_of(node)
                 if h is None:
+                    g_ = outer._module_helper(node)
+                    if g_ is not None:
+                        try:
+                            e = _as_expression([_Subst(dict(zip([a.arg for a in g_.args.args], node.args))).visit(b) for b in _clone(g_.body)])
+                        except _NoInline:
+                            return node
+                        outer.inlined.add(g_.name)
+                        return ast.copy_location(e, node)
                     return node
                 try:
                     e = _as_expression(outer._body(h, node))
@@ -2297,7 +2442,7 @@ class Views:
         if rel not in self._inl:
             table = self.known.get(rel, {})
             names = {n for ns in table.values() for n in ns}
-            self._inl[rel] = Inliner(self.ctx.mod(rel), list(table), names, extended=self.extended)
+            self._inl[rel] = Inliner(self.ctx.mod(rel), [c for c in table if c != "<module>"], names, extended=self.extended)
         return self._inl[rel]
 
     def f(self, rel, qual):
@@ -2315,6 +2460,8 @@ class Views:
         ms = _methods(self.ctx.cls(rel, cls_name))
         known = set(self.known.get(rel, {}).get(cls_name, ()))
         for c in self.known.get(rel, {}):               # populate inl.inlined from every known method of the module first
+            if c == "<module>":
+                continue
             for n, m in _methods(self.ctx.cls(rel, c)).items():
                 if n in self.known[rel][c]:
                     inl.view(m)
